@@ -105,6 +105,7 @@ theorem callStep_state (maxc now : Nat) (st : St) (c : Call) :
   | setAnalytics b => rfl
   | viaMut o => rfl
   | kbClear => exact (run_clear maxc st).symm
+  | kbReplace rs => simp only [callStep, Call.ops, run_append, run_clear]
   | wfStep g => simp [callStep, Call.ops, run_stepOps]
   | workflow gs => exact wfLoop_state maxc now st gs
 
